@@ -207,7 +207,8 @@ def write_container(
 ) -> bytes:
     """Write a whole BSP.
 
-    lumps: index -> {'data': bytes, 'version': int, 'lzma': bool}; missing slots are empty, version 0.
+    lumps: index -> {'data': bytes, 'version': int, 'lzma': bool, 'lzma_opts': {lc, lp, pb, dict_size} (optional)};
+    missing slots are empty, version 0.
     game_lumps: [{'id': 4 bytes, 'flags': int (bit 0 is set from 'lzma'), 'version': int, 'data': bytes,
     'lzma': bool}].  A compressed game lump is always followed by one NUL byte (the reader derives its size from the
     next offset minus one) and needs a successor entry, so a dummy terminator is added when the last one is
@@ -244,7 +245,7 @@ def write_container(
                 flags = gl.get('flags', 0) & 0xFFFE
                 if gl.get('lzma'):
                     flags |= 1
-                    payload = source_lzma_pack(data, **lzma_opts)
+                    payload = source_lzma_pack(data, **(gl.get('lzma_opts') or lzma_opts))
                 else:
                     payload = data
                 off = len(out)
@@ -264,7 +265,7 @@ def write_container(
             continue
         data = spec.get('data', b'')
         if spec.get('lzma') and data and idx != PAKFILE:
-            payload = source_lzma_pack(data, **lzma_opts)
+            payload = source_lzma_pack(data, **(spec.get('lzma_opts') or lzma_opts))
             fourcc = len(data)
         else:
             payload = data
@@ -860,9 +861,11 @@ def encode_world(w: dict) -> tuple[dict[int, dict], list[dict]]:
         d[idx] = bytes.fromhex(hx)
     lumps: dict[int, dict] = {}
     lz = set(w['lzma'])
+    opt_list = [lzma_opts_of(o) for o in w.get('lzma_opts', [])] or [None]
     for idx, data in d.items():
         nm = LUMP_NAMES[idx]
-        lumps[idx] = {'data': data, 'version': w['lump_ver'].get(nm, 0), 'lzma': nm in lz and idx != PAKFILE}
+        lumps[idx] = {'data': data, 'version': w['lump_ver'].get(nm, 0), 'lzma': nm in lz and idx != PAKFILE,
+                      'lzma_opts': opt_list[idx % len(opt_list)]}
     for nm, ver in w['lump_ver'].items():
         idx = LUMP_INDEX[nm]
         if idx not in lumps and idx != GAME_LUMP:
@@ -881,7 +884,23 @@ def encode_world(w: dict) -> tuple[dict[int, dict], list[dict]]:
         entry = {'id': eg['id'].encode('ascii'), 'flags': eg['flags'], 'version': eg['ver'],
                  'data': bytes.fromhex(eg['data']), 'lzma': bool(eg['lzma'])}
         game.insert(eg['pos'] % (len(game) + 1), entry)
+    for k, g in enumerate(game):
+        g['lzma_opts'] = opt_list[(k + 1) % len(opt_list)]
     return lumps, game
+
+
+LZMA_DEFAULT = [3, 0, 2, 24]        # lc, lp, pb, log2(dictionary size): what Source and srctools write
+
+
+def lzma_opts_of(o) -> dict:
+    """[lc, lp, pb, log2 dict] (descriptor form) -> keyword arguments of source_lzma_pack (lc + lp <= 4 enforced)."""
+    lc, lp, pb, dl = o
+    lp = min(lp, 4 - lc)
+    return {'lc': lc, 'lp': lp, 'pb': pb, 'dict_size': 1 << dl}
+
+
+def lzma_is_default(opts: Optional[dict]) -> bool:
+    return opts is None or (opts['lc'], opts['lp'], opts['pb']) == (3, 0, 2)
 
 
 def build_bsp(w: dict, encoded: Optional[tuple] = None) -> bytes:
@@ -1065,6 +1084,12 @@ def world_strategy(tier: str, layouts: Optional[list[str]] = None, rich: bool = 
         'gl_lzma': st.one_of(st.just([]), st.lists(st.sampled_from(['sprp', 'dprp']), max_size=2, unique=True)),
         'gl_dummy': st.booleans(),
         'gl_pad': st.sampled_from([0, 0, 1, 3]),
+        # LZMA filter settings of the compressed lumps of the *input* (lump k uses entry k mod len)
+        'lzma_opts': st.lists(st.one_of(
+            st.just(LZMA_DEFAULT),
+            st.tuples(st.integers(0, 4), st.integers(0, 4), st.integers(0, 4), st.integers(12, 20)).map(list),
+            st.sampled_from([[0, 2, 0, 16], [4, 0, 4, 12], [0, 4, 0, 20], [3, 0, 2, 12]]),
+        ), min_size=1, max_size=3),
     })
 
 
